@@ -227,6 +227,14 @@ func c19Table(w *verifrt.World, tier Tier) *RunResult {
 		if t.Draw(3) == 0 {
 			s.Headers = append(s.Headers, Header{"X-Weird", pick(t, []string{"a\nb", "--abcdefghij-Z--", "\xff\xfe", "\"quoted\"", "--x--\n--abcdefghij-A--"})})
 		}
+		if t.Draw(4) == 0 {
+			// control bytes, DEL and invalid UTF-8 in argument names and values
+			sep := "?"
+			if strings.Contains(s.URI, "?") {
+				sep = "&"
+			}
+			s.URI += sep + pick(t, []string{"w=%01", "w=%07x", "w=a%0bb", "w=%7f", "w=%ff%fe", "%ff=1", "w=%00", "w=%1b[0m", "%01=%02"})
+		}
 		sc.Scripts = append(sc.Scripts, s)
 	}
 	res.Sample = sc
